@@ -580,7 +580,7 @@ func (w *world) doState(sc *fsc, s connectivity.State) {
 		if s == connectivity.Ready {
 			old := sl.conn
 			if len(w.cc.removed) != 1 || w.cc.removed[0] != balancer.SubConn(old) {
-				w.fail("C07", "A.swap.remove", "%s: RemoveSubConn calls %v, want exactly the old conn %v", what, w.cc.removed, old)
+				w.fail("C07|C03", "A.swap.remove", "%s: RemoveSubConn calls %v, want exactly the old conn %v", what, w.cc.removed, old)
 			}
 			if sc.addrs != addrName(w.L) {
 				w.fail("C20", "A.swap.addr", "%s: replacement takes over with addresses %q, latest resolved %q", what, sc.addrs, addrName(w.L))
@@ -624,7 +624,7 @@ func (w *world) doState(sc *fsc, s connectivity.State) {
 		}
 	}
 	if len(w.cc.created) != 0 {
-		w.fail("C03", "A.state.create", "%s: NewSubConn during a state report", what)
+		w.fail("C03|C07", "A.state.create", "%s: NewSubConn during a state report", what)
 	}
 	if (role == "removed" || role == "unknown" || (role == "repl" && s != connectivity.Ready)) && len(w.cc.pubs) != 0 {
 		w.fail("C04", "A.pub.foreign", "%s: a report for a conn that is not a pool conn caused a publication", what)
@@ -686,6 +686,17 @@ func (w *world) opPick(op *Op) {
 	p := w.pubs[pi]
 	m := w.methodCfg(Methods[((op.M%len(Methods))+len(Methods))%len(Methods)])
 	key := Keys[((op.Key%len(Keys))+len(Keys))%len(Keys)]
+	if op.KeyOf != 0 && len(w.calls) > 0 {
+		// a key whose home is the channel of the most recent outstanding call (steers keyed calls to that channel)
+		target := w.calls[len(w.calls)-1].slot
+		for _, k := range Keys {
+			if h, ok := w.aff[k]; ok && h == target && k != "" {
+				key = k
+				w.labels["pick-keyed-to-channel-of-last-call"]++
+				break
+			}
+		}
+	}
 	base := context.Background()
 	hasIC := !op.NoIC
 	req, refKey, refErr := reqFor(m, key, op.Msg)
@@ -793,7 +804,7 @@ func (w *world) pickReturned(pp *pendingPick, out pickOut, keyed, refErr bool, R
 	if err == nil {
 		placed = w.slotOfConn(res.SubConn)
 		if placed < 0 {
-			w.fail("C02", "A.pick.7", "%s: placed on %v which is no channel's current connection (%s)", what, res.SubConn, w.describe())
+			w.fail("C02|C07|C01", "A.pick.7", "%s: placed on %v which is no channel's current connection (%s)", what, res.SubConn, w.describe())
 		}
 		if res.Done == nil {
 			w.fail("C02", "A.pick.7", "%s: placement without completion callback", what)
@@ -832,7 +843,9 @@ func (w *world) pickReturned(pp *pendingPick, out pickOut, keyed, refErr bool, R
 	case keyed && refErr:
 		w.labels["key-extraction-error"]++
 		if err == nil {
-			w.fail("C05", "A.pick.3", "%s: request key cannot be extracted, yet the call was placed on slot %d", what, placed)
+			// "yields an error or is ignored": a placement that ignores the key is tolerated
+			w.labels["key-extraction-error-ignored"]++
+			grew = len(w.cc.created) > 0
 		}
 	case isRR:
 		w.rrReturned(pp, placed, err)
@@ -846,10 +859,10 @@ func (w *world) pickReturned(pp *pendingPick, out pickOut, keyed, refErr bool, R
 		case isKeyed:
 			if w.ready(h) {
 				if err == nil && placed != h {
-					w.fail("C01", "A.pick.5a", "%s: key %q is bound to slot %d (READY) but the call was placed on slot %d", what, key, h, placed)
+					w.fail("C01|C08", "A.pick.5a", "%s: key %q is bound to slot %d (READY) but the call was placed on slot %d", what, key, h, placed)
 				}
 				if !stale && err != nil {
-					w.fail("C01", "A.pick.5b", "%s: key %q home slot %d is READY, the most recent picker returned %v", what, key, h, err)
+					w.fail("C01|C08", "A.pick.5b", "%s: key %q home slot %d is READY, the most recent picker returned %v", what, key, h, err)
 				}
 				w.labels["bound-pick-home-ready"]++
 				if w.slots[h].k > 0 || w.anySwapOn(h) {
@@ -920,14 +933,14 @@ func (w *world) pickReturned(pp *pendingPick, out pickOut, keyed, refErr bool, R
 				}
 			default:
 				if err != nil || !inSnap(placed) || w.slots[placed].inflight != mn {
-					w.fail("C03", "A.pick.6d", "%s: saturated at maxSize: placed=%d err=%v snapshot=%v (%s)", what, placed, err, p.snap, w.describe())
+					w.fail("C02|C03", "A.pick.6d", "%s: saturated at maxSize: placed=%d err=%v snapshot=%v (%s)", what, placed, err, p.snap, w.describe())
 				}
 				w.labels["saturated-at-max"]++
 			}
 		}
 	}
 	if !grew && len(w.cc.created) != 0 && immediate {
-		w.fail("C03", "A.pick.create", "%s: unexpected NewSubConn", what)
+		w.fail("C03|C07", "A.pick.create", "%s: unexpected NewSubConn", what)
 	}
 	if immediate {
 		for _, sc := range w.cc.created {
